@@ -147,7 +147,10 @@ func genStoreCase(t *rapid.T) *storeCase {
 	ref := func(l string) int { return rapid.IntRange(0, 7).Draw(t, l) }
 	for i := 0; i < nOps; i++ {
 		if pct(t, "restart") < 6 {
-			cs.Ops = append(cs.Ops, storeOp{Op: "restart"})
+			// Flag = quiet restart: the stores are NOT read back right after the restart, so that the next
+			// generated operation is the first request of its kind the new process sees (a read-all would
+			// load every lazily loaded per-tenant file and hide a write that forgets to load first).
+			cs.Ops = append(cs.Ops, storeOp{Op: "restart", Flag: rapid.IntRange(0, 1).Draw(t, "quietRestart") == 1})
 			continue
 		}
 		st := rapid.SampledFrom(cs.Stores).Draw(t, "store")
@@ -377,7 +380,9 @@ func checkStores(cs *storeCase, o *pt.Obs) error {
 				d.impls[s].restarted(d)
 			}
 			d.what = fmt.Sprintf("after restart (op %d)", i)
-			if err := verifyAll(); err != nil {
+			if op.Flag {
+				o.Class("op_restart_quiet")
+			} else if err := verifyAll(); err != nil {
 				return err
 			}
 			if mutated {
